@@ -353,9 +353,25 @@ fn oracle_episode(w: &mut World, history: &[String], out: &mut Out) {
 fn gen_episode(rng: &mut Rng, w: &mut World, len: u64, out: &mut Out, across_limit: bool) {
     let mut history: Vec<String> = vec![];
     let mut emit = |w: &mut World, line: String, history: &mut Vec<String>, out: &mut Out| {
+        // a refused add_op / merge / verified_merge must leave the replica exactly as it was
+        let target: Option<u64> = {
+            let ws: Vec<&str> = line.split_whitespace().collect();
+            match ws.as_slice() {
+                ["addop", r, _] | ["merge", r, _] | ["vmerge", r, _] => r.parse().ok(),
+                _ => None,
+            }
+        };
+        let before = target.and_then(|t| w.regs.get(&t).map(|r| r.ops().clone()));
         let r = catch_unwind(AssertUnwindSafe(|| exec(w, &line))).unwrap_or_else(|_| "panic".into());
         if r == "panic" {
             out.oracle_fail("no-panic", &history.join(" ; "), &format!("panic on `{line}`"));
+        }
+        if let (Some(t), Some(b)) = (target, before) {
+            if r.starts_with("err") && w.regs.get(&t).map(|x| x.ops() != &b).unwrap_or(false) {
+                let mut h = history.clone();
+                h.push(line.clone());
+                out.oracle_fail("rejected-changes-nothing", &h.join(" ; "), &format!("`{line}` was refused ({r}) but replica {t}'s op set changed"));
+            }
         }
         let op = line.split_whitespace().next().unwrap_or("").to_string();
         let class = if r.starts_with("err") { r.split_whitespace().take(2).collect::<Vec<_>>().join(" ") } else { "ok".into() };
